@@ -225,6 +225,28 @@ def run(ctx):
         if time.time() - t0 > 60 and not slow:
             ctx.violation('impl-violation', input=text, finding='slow', chain=[], observed=f'enumerating the proposals of a {len(text)}-byte input took {time.time() - t0:.0f} s',
                           expected='time bounded by a small function of the input size')
+    # memory: the text of a proposal must stay within a small multiple of the input text; indices and widths written with
+    # few digits may stand for huge numbers
+    N = 4000000
+    big = ('(set-logic ALL)\n(declare-const b (_ BitVec 1))\n(declare-const i Int)\n'
+           f'(assert (= ((_ sign_extend {N}) #b1) ((_ zero_extend {N}) b)))\n(assert (= (_ bv5 {N}) ((_ repeat {N}) b)))\n'
+           f'(assert (= ((_ extract {N} 0) b) ((_ rotate_left {N}) b)))\n(assert (> (* i {N}{N}{N}) (+ i 1e{N})))\n'
+           f'(assert (= ((_ int2bv {N}) i) ((_ to_fp {N} {N}) b)))\n(check-sat)\n')
+    exprs = impl.parse(big)
+    blown = {}
+    for p_ in P.enumerate_proposals(exprs, time_limit=20):
+        if 'error' in p_:
+            if p_['error'] == 'hang':
+                blown.setdefault(p_['cls'], f"no proposal within 20 s for {str(p_['node'])[:60]}")
+            continue
+        sz = sum(len(x.data) if x.is_leaf() else 0 for v in p_['simp'].substs.values() if v is not None for x in impl.nodes.dfs(v))
+        if sz > 100 * len(big):
+            blown.setdefault(p_['cls'], f"a proposal for {str(p_['node'])[:60]} has {sz} characters")
+    ctx.case(['huge indices', big], True)
+    for cls_, msg in sorted(blown.items()):
+        ctx.violation('impl-violation', finding_key='blowup:' + cls_, input=big, finding='blowup', chain=[cls_],
+                      observed=f'{cls_}: {msg} although the input has {len(big)} characters',
+                      expected='time and memory bounded by a small function of the input size')
     ctx.count('first-level proposals', tot['proposals'])
     ctx.count('second/third-level proposals', tot['explored'])
     # real runs: whole-input revisits are reported by ddSMT's own --check-loops; non-termination by the watchdog
